@@ -430,6 +430,9 @@ pub struct Scenario {
     /// a consumer that has received the end marker calls `next()` this many more times before it
     /// returns (legal use of the API; every such call must report the end again)
     pub ask_again: usize,
+    /// the consumer runs another (small) parallel call of its own while this one is active - paired files
+    /// read in lockstep, a lookup in a second file per result
+    pub nested: bool,
 }
 
 impl Scenario {
@@ -440,7 +443,7 @@ impl Scenario {
             "err_at": self.err_at, "consumer": format!("{:?}", self.consumer),
             "init_fail": format!("{:?}", self.init_fail), "delay": self.delay.name(),
             "delay_seed": self.delay_seed, "delay_scale_us": self.delay_scale_us, "delay_target": self.delay_target,
-            "ask_again_after_end": self.ask_again,
+            "ask_again_after_end": self.ask_again, "nested_call_in_consumer": self.nested,
         })
     }
     pub fn class(&self) -> String {
@@ -493,6 +496,8 @@ pub struct Seen {
     /// calls of next() made after the end marker / results they returned
     pub asked_after_end: usize,
     pub results_after_end: usize,
+    pub nested_calls: usize,
+    pub nested_failures: usize,
 }
 
 pub struct MockResult {
@@ -516,6 +521,7 @@ pub fn run_mock(sc: &Scenario) -> MockResult {
     };
     let consumer = sc.consumer;
     let ask_again = sc.ask_again;
+    let nested = sc.nested;
     let expect_sizes = sc.sizes.clone();
     let ret = read_parallel_init::<MockReader, TopErr, _, InitErr, Out, _, InitErr, _, _, Seen>(
         sc.threads,
@@ -564,6 +570,14 @@ pub fn run_mock(sc: &Scenario) -> MockResult {
         |rsets: &mut ParallelRecordsets<MockSet, MockErr, Out>| {
             log(Ev::FuncStart);
             let mut seen = Seen::default();
+            if nested {
+                // a parallel call of our own inside the consumer of this one
+                seen.nested_calls += 1;
+                match run_item_records(2, 1, vec![2, 0, 3, 1], 3) {
+                    Ok((got, total)) if got.len() as u64 == total && total == 6 => {}
+                    _ => seen.nested_failures += 1,
+                }
+            }
             let limit = match consumer {
                 Consumer::StopAfter(k) => k,
                 _ => usize::MAX,
@@ -806,6 +820,9 @@ pub fn check_mock(sc: &Scenario, res: &MockResult, entries: &[Entry], findings: 
                 }
                 _ => {}
             }
+            if seen.nested_failures > 0 {
+                f("C07", "nested-call-failed", "a parallel call made inside the consumer of another one did not deliver its records".into());
+            }
             if seen.results_after_end > 0 {
                 f(
                     "C15",
@@ -998,6 +1015,7 @@ pub fn gen_scenario_t(rng: &mut Rng, miri: bool, long: bool, thorough: bool) -> 
         delay_scale_us: if long { 5 } else { *rng.pick(&[5u64, 30, 100]) },
         delay_target,
         ask_again: if rng.chance(1, 4) { 1 + rng.below(3) } else { 0 },
+        nested: !miri && !giant_queue && rng.chance(1, 25),
     }
 }
 
